@@ -184,6 +184,19 @@ var c16 = newChk("C16", "relay-chain",
 				return obs.Failf("C16/decapsulate-index", fmt.Sprintf("element %d of the chain", i+1), "err=%v got %v", err, got)
 			}
 		}
+		// DecapsulateRelayIndex(chain, k) is DecapsulateRelay applied k+1 times (which hands a non-relay message back
+		// unchanged), for every k — also beyond the end of the chain
+		for k := 0; k <= d+2; k++ {
+			var step dhcpv6.DHCPv6 = chain
+			var serr error
+			for n := 0; n <= k && serr == nil; n++ {
+				step, serr = dhcpv6.DecapsulateRelay(step)
+			}
+			got, err := dhcpv6.DecapsulateRelayIndex(chain, k)
+			if (err == nil) != (serr == nil) || (err == nil && got != step) {
+				return obs.Failf("C16/decapsulate-index/stepwise", fmt.Sprintf("index %d of a chain of depth %d: the same element as %d single decapsulations", k, d, k+1), "err=%v stepwise err=%v same=%v", err, serr, got == step)
+			}
+		}
 		// the payload of the innermost relay level is replaced after the lookups above: later lookups see the new message
 		levels[d-1].UpdateOption(dhcpv6.OptRelayMessage(reply))
 		if im2, err := chain.GetInnerMessage(); err != nil || sameTree(im2, reply) != "" {
